@@ -401,3 +401,86 @@ package sio
 //@   loop 0 invariant forall j int :: 0 <= j && j <= rangeindex && !old(pmatch(s.sendBuffer[j], id)) ==> old(pkeep(s.sendBuffer, id, j)) < old(pkeep(s.sendBuffer, id, rangeindex + 1)) [C03.purge.inv.strict]
 //@   loop 0 invariant arr(kept) == arr(old(s.sendBuffer)) && off(kept) == off(old(s.sendBuffer)) && cap(kept) == cap(old(s.sendBuffer)) && 0 <= len(kept) && len(kept) <= rangeindex + 1 [C03.purge.inv.inplace]
 //@   loop 0 invariant forall k int :: 0 <= k && k < len(kept) ==> !(kept[k].ackID != nil && *kept[k].ackID == id) [C03.purge.inv.removed]
+
+// ---------------------------------------------------------------------------------------------
+// C15: reconnection back-off. Verified bit-precisely (`ints bv`): 64-bit wrap-around of the products, IEEE double
+// arithmetic and float<->int conversion (an out-of-range conversion result is left unconstrained, as in Go).
+//@ func (*backoff).duration
+//@   ints bv
+//@   requires 0 < b.max && b.max < 9007199254740992 && b.min >= 0 && b.factor == 2
+//@   requires 0 <= b.jitter && b.jitter <= 1
+//@   ensures 0 < result && result <= b.max [C15.backoff.range]
+//@   ensures b.numAttempts == old(b.numAttempts) + 1 [C15.backoff.count]
+//@   ensures b.jitter == 0 && old(b.numAttempts) == 0 && 0 < b.min && b.min <= b.max ==> result == b.min [C15.backoff.first]
+
+//@ func newBackoff
+//@   ints bv
+//@   requires jitter == jitter      // not NaN
+//@   ensures result != nil && result.min == min && result.max == max && result.factor == 2 && result.numAttempts == 0 [C15.backoff.new]
+//@   ensures 0 <= result.jitter && result.jitter <= 1 [C15.backoff.jitter]
+
+// One level of the reconnect recursion. la = the attempt count read at this level. The give-up decision is taken
+// exactly at the configured limit, announces reconnect_failed once, makes no further connection attempt and does not
+// recurse; a connection attempt is made only below the limit; recursion happens only after a failed attempt.
+//@ func (*Manager).reconnect
+//@   opt safety off
+//@   requires m.reconnectFailedHandlers != m.reconnectAttemptHandlers && m.reconnectFailedHandlers != m.reconnectErrorHandlers   // distinct registries (NewManager)
+//@   ghost la int = 0 - 1
+//@   ghost connects int = 0
+//@   ghost failed int = 0
+//@   ghost recursions int = 0
+//@   ghost resets int = 0
+//@   callsite (*backoff).attempts
+//@     updateafter la = (connects == 0 && failed == 0 && la == 0 - 1) ? result : la
+//@   callsite (*backoff).duration skip     // its own contract is discharged bit-precisely; nothing of it is needed here
+//@   callsite (*backoff).reset
+//@     update resets = resets + 1
+//@   callsite forEach
+//@     requires recv == m.reconnectFailedHandlers ==> (m.reconnectionAttempts > 0 && la >= m.reconnectionAttempts) || (m.reconnectionAttempts == 0 && la == 4294967295) [C15.reconnect.limit]
+//@     requires recv == m.reconnectFailedHandlers ==> connects == 0 && failed == 0 && resets == 1 [C15.reconnect.failedonce]
+//@     update failed = failed + (recv == m.reconnectFailedHandlers ? 1 : 0)
+//@   callsite (*Manager).connect skip      // assumption: a connection attempt does not change the manager's configuration or registries
+//@     requires la >= 0 && !(m.reconnectionAttempts > 0 && la >= m.reconnectionAttempts) && failed == 0 [C15.reconnect.count]
+//@     update connects = connects + 1
+//@   callsite (*Manager).reconnect
+//@     requires arg0 && connects == 1 && failed == 0 [C15.reconnect.recursed]
+//@     update recursions = recursions + 1
+//@   ensures connects <= 1 && failed <= 1 && recursions <= 1 [C15.reconnect.onelevel]
+//@   ensures failed == 1 ==> connects == 0 && recursions == 0 [C15.reconnect.giveup]
+
+// Emitting while not connected (connected = the server's CONNECT reply has arrived): nothing is sent, the frames are
+// appended to the offline buffer in order (volatile ones are dropped); all frames of one packet go out in ONE call.
+//@ func (*clientSocket)._sendBuffers
+//@   opt safety bounds
+//@   requires s.manager != nil && s.debug != nil
+//@   ghost sent int = 0
+//@   callsite (*Manager).packet
+//@     requires forceSend || s.state == clientSocketConnStateConnected [C15.buf.connected]
+//@     requires len(arg0) == len(old(buffers)) && sent == 0 [C02.sb.oneadd.client]
+//@     requires !arg0[0].IsBinary && arg0[0].Type == 4 && arg0[0].Data == old(buffers[0]) [C01.sb.frames.client.first]
+//@     requires forall k int :: 1 <= k && k < len(arg0) ==> arg0[k] != nil && arg0[k].IsBinary && arg0[k].Type == 4 && arg0[k].Data == old(buffers[k]) [C01.sb.frames.client.rest]
+//@     update sent = sent + 1
+//@   ensures sent <= 1 [C02.sb.oneadd.client.once]
+//@   ensures volatile && !forceSend && old(s.state) != clientSocketConnStateConnected ==> sent == 0 && s.sendBuffer == old(s.sendBuffer) [C15.buf.volatile]
+//@   ensures !volatile && !forceSend && old(s.state) != clientSocketConnStateConnected && len(buffers) > 0 ==> sent == 0 && len(s.sendBuffer) == old(len(s.sendBuffer)) + len(buffers) [C15.buf.offline]
+//@   ensures !volatile && !forceSend && old(s.state) != clientSocketConnStateConnected && len(buffers) > 0 ==> forall k int :: 0 <= k && k < len(buffers) ==> s.sendBuffer[old(len(s.sendBuffer)) + k].ackID == ackID && s.sendBuffer[old(len(s.sendBuffer)) + k].packet != nil && s.sendBuffer[old(len(s.sendBuffer)) + k].packet.Data == old(buffers[k]) [C15.buf.offline.order]
+//@   ensures !volatile && !forceSend && old(s.state) != clientSocketConnStateConnected ==> forall k int :: 0 <= k && k < old(len(s.sendBuffer)) ==> s.sendBuffer[k] == old(s.sendBuffer[k]) [C15.buf.offline.keeps]
+//@   loop 0 invariant len(packets) == len(old(buffers)) && len(buffers) == len(old(buffers)) - 1 && arr(buffers) == arr(old(buffers)) && off(buffers) == off(old(buffers)) + 1
+//@   loop 0 invariant packets[0] != nil && !packets[0].IsBinary && packets[0].Type == 4 && packets[0].Data == old(buffers[0])
+//@   loop 0 invariant forall k int :: 1 <= k && k <= rangeindex + 1 ==> packets[k] != nil && packets[k].IsBinary && packets[k].Type == 4 && packets[k].Data == old(buffers[k])
+//@   loop 1 invariant len(buffers) == len(packets) && forall k int :: 0 <= k && k <= rangeindex ==> buffers[k].ackID == ackID && buffers[k].packet == packets[k]
+
+// After the (re)connection everything buffered offline is handed over in one call, in order, and the buffer is emptied.
+//@ func (*clientSocket).emitBuffered
+//@   opt safety off
+//@   requires s.manager != nil
+//@   ghost flushed int = 0
+//@   callsite callEvent skip        // assumption: handlers of buffered events do not touch the offline send buffer
+//@   callsite sendAckPacket skip
+//@   callsite (*Manager).packet
+//@     requires len(arg0) == len(s.sendBuffer) && forall k int :: 0 <= k && k < len(arg0) ==> arg0[k] == s.sendBuffer[k].packet [C15.buf.flush.order]
+//@     update flushed = flushed + 1
+//@   loop 2 invariant len(packets) == len(s.sendBuffer) && forall k int :: 0 <= k && k <= rangeindex ==> packets[k] == s.sendBuffer[k].packet
+//@   ensures len(s.sendBuffer) == 0 [C15.buf.flush]
+//@   ensures old(len(s.sendBuffer)) > 0 ==> flushed == 1 [C15.buf.flush.once]
+//@   ensures len(s.receiveBuffer) == 0 [C15.buf.received.cleared]
